@@ -40,7 +40,8 @@ pub trait ServerCertVerifierObject { spec fn installed(&self) -> InstalledVerifi
 impl ServerCertVerifierObject for Arc<CertVerifier> { open spec fn installed(&self) -> InstalledVerifier { InstalledVerifier::Base(**self) } }
 impl ServerCertVerifierObject for Arc<ExpectedCertVerifier> { open spec fn installed(&self) -> InstalledVerifier { InstalledVerifier::Pinned((**self).0, (**self).1) } }
 pub struct ClientTls { pub versions: Seq<TlsVersion>, pub verifier: InstalledVerifier, pub chain: Seq<CertificateDer>, pub key: PrivateKeyDer }
-pub struct ServerTls { pub versions: Seq<TlsVersion>, pub client_verifier: CertVerifier, pub certs: Map<Seq<char>, (Seq<CertificateDer>, PrivateKeyDer)> }
+pub struct ServerTls { pub versions: Seq<TlsVersion>, pub client_verifier: CertVerifier, pub certs: Map<Seq<char>, (Seq<CertificateDer>, PrivateKeyDer)>,
+                       pub catch_all: bool /* a certificate is presented whatever name the hello asks for */ }
 pub struct TransportConfig { pub id: u64 }
 impl Default for TransportConfig { #[verifier::external_body] fn default() -> (r: Self) { unimplemented!() } }
 pub struct Provider;
@@ -117,7 +118,11 @@ pub mod rustls {
     impl ServerBuilder2 {
         #[verifier::external_body]
         pub fn with_cert_resolver(self, res: Arc<server::ResolvesServerCertUsingSni>) -> (r: ServerConfig)
-            ensures r.tls@ == (ServerTls { versions: self.versions@, client_verifier: self.client_verifier@, certs: (*res).by_name@ }) { unimplemented!() }
+            ensures r.tls@ == (ServerTls { versions: self.versions@, client_verifier: self.client_verifier@, certs: (*res).by_name@, catch_all: false }) { unimplemented!() }
+        // rustls' other standard way to give a server its certificate: ONE certificate, presented whatever name the client asks for
+        #[verifier::external_body]
+        pub fn with_single_cert(self, chain: Vec<CertificateDer>, key: PrivateKeyDer) -> (r: core::result::Result<ServerConfig, Error>)
+            ensures r is Ok ==> r->Ok_0.tls@ == (ServerTls { versions: self.versions@, client_verifier: self.client_verifier@, certs: Map::<Seq<char>, (Seq<CertificateDer>, PrivateKeyDer)>::empty(), catch_all: true }) { unimplemented!() }
     }
 }
 pub struct ResetKey { pub of: [u8; 32] }
@@ -251,6 +256,7 @@ impl EndpointConfigBuilder {
     ensures
         r is Ok ==> r->Ok_0.tls@.client_verifier == *cert_verifier, // @OBL EndpointConfigBuilder::server_config::installs_the_given_client_verifier [C01,C14] the server TLS configuration verifies the certificate of EVERY dialer with exactly the verifier it is given (client authentication through anemo's CertVerifier, which makes it mandatory)
         r is Ok ==> r->Ok_0.tls@.versions =~= only_tls13(), // @OBL EndpointConfigBuilder::server_config::tls13_only [C01] TLS 1.3 only
+        r is Ok ==> !r->Ok_0.tls@.catch_all, // @OBL EndpointConfigBuilder::server_config::certificate_only_for_a_known_name [C14] the listener presents a certificate only when the name in the TLS hello is one it was configured with (certificates are resolved by name; there is no certificate that is presented for any name)
         r is Ok ==> (forall|n: Seq<char>| r->Ok_0.tls@.certs.contains_key(n) ==> r->Ok_0.tls@.certs[n].1 == pkcs8_der), // @OBL EndpointConfigBuilder::server_config::one_key [C01] every certificate the listener can present is paired with the node's own private key
 ''')
     t += C.fn(CFG, 'impl EndpointConfigBuilder :: fn build', 'EndpointConfigBuilder::build', ['C01', 'C03', 'C14'], ret='r', rewrites=tyrw + [
